@@ -25,3 +25,7 @@ Inductive rfilter := FStartsWith (p : string) | FContains (p : string).
 
 (* how `--format json` shows a field: as is, through str(), or the name of the Enum member *)
 Inductive jtrans := JId | JStr | JEnumName.
+
+(* which rule instances of its registry the parent's evidence loop (_collect_cross_file_evidence) feeds:
+   those whose class overrides finalize (`type(r).finalize is not BaseLintRule.finalize`), or all of them *)
+Inductive psel := SelOverridesFinalize | SelAll.
